@@ -13,6 +13,7 @@ package c11
 import (
 	"fmt"
 	"strings"
+	"syscall"
 	"time"
 
 	"verif/engine"
@@ -37,11 +38,19 @@ var cfgB = srv.Cfg{Services: []srv.Svc{{Listeners: []srv.Ln{{Type: "tcp", Addr: 
 var cfgLA = srv.Cfg{Legacy: []srv.Legacy{{Key: kA, Port: 9000}, {Key: kB, Port: 9000}}}
 var cfgLB = srv.Cfg{Legacy: []srv.Legacy{{Key: kC, Port: 9000}, {Key: kA, Port: 9000}, {Key: kC, Port: 9001}}}
 
+// cfgC keeps TCP on the retained address and drops the UDP listener of the same address
+var cfgC = srv.Cfg{Services: []srv.Svc{{Listeners: []srv.Ln{{Type: "tcp", Addr: "127.0.0.1:9000"}, {Type: "tcp", Addr: "127.0.0.1:9001"}}, Keys: []srv.Key{kC, kA}}}}
+
+// cfgBad is cfgB plus a listener that cannot be bound: the reload must fail and change nothing
+var cfgBad = srv.Cfg{Services: []srv.Svc{{Listeners: []srv.Ln{{Type: "tcp", Addr: "127.0.0.1:9000"}, {Type: "udp", Addr: "127.0.0.1:9000"}, {Type: "tcp", Addr: "127.0.0.1:9009"}}, Keys: []srv.Key{kC, kA}}}}
+
 type spec struct {
 	Pre     string // idle | mid | half (client has sent FIN, target answers late) | thalf (target has sent FIN, client still uploads)
 	Reloads int
 	UDP     bool
 	Legacy  bool // configurations in the legacy format
+	DropUDP bool // the first reload drops the UDP listener of the retained address (TCP stays), the second brings it back
+	Failing bool // the reload cannot succeed (a new listener cannot be bound): service on the running configuration goes on
 	Second  bool // a second TCP client and a second datagram right behind the first ones (the first of two
 	// arrivals goes to the generation that has been waiting longest, the second to the other one)
 }
@@ -53,6 +62,12 @@ func (s spec) name() string {
 	}
 	if s.Second {
 		n += "[two-clients]"
+	}
+	if s.DropUDP {
+		n += "[udp-dropped-then-back]"
+	}
+	if s.Failing {
+		n += "[failing-reload]"
 	}
 	return n
 }
@@ -101,6 +116,13 @@ func scenario(s spec) *engine.Scenario {
 		if s.Legacy {
 			bootCfg, cfgs = cfgLA, []srv.Cfg{cfgLB, cfgLA}
 		}
+		if s.DropUDP {
+			cfgs = []srv.Cfg{cfgC, cfgA}
+		}
+		if s.Failing {
+			w.VW.BindErr["tcp/127.0.0.1:9009"] = syscall.EADDRINUSE
+			cfgs = []srv.Cfg{cfgBad, cfgBad}
+		}
 		if err := w.Boot(bootCfg, 0); err != nil {
 			panic(err)
 		}
@@ -108,7 +130,7 @@ func scenario(s spec) *engine.Scenario {
 			if !w.VW.ListeningTCP(9000) {
 				return "the retained TCP address 127.0.0.1:9000 is not bound"
 			}
-			if !w.VW.BoundUDP(9000) {
+			if !s.DropUDP && !w.VW.BoundUDP(9000) {
 				return "the retained UDP address 127.0.0.1:9000 is not bound"
 			}
 			return ""
@@ -222,7 +244,7 @@ func scenario(s spec) *engine.Scenario {
 			if x.InvariantViolation != "" {
 				add("retained-address-unbound", "during the reload: %s", x.InvariantViolation)
 			}
-			if o.failedLoad {
+			if o.failedLoad && !s.Failing {
 				add("valid-reload-failed", "the reload of a valid configuration was reported as failed")
 			}
 			if o.probe.Refused {
@@ -284,11 +306,16 @@ func probeUDP(w *srv.World, k srv.Key) srv.ProbeResult {
 func scenarios(tier string) []*engine.Scenario {
 	var out []*engine.Scenario
 	for _, pre := range []string{"idle", "mid", "half"} {
+		if pre == "mid" && tier != "thorough" {
+			continue // quick: covered by the two-reload scenario below
+		}
 		out = append(out, scenario(spec{Pre: pre, Reloads: 1, UDP: pre == "idle"}))
 	}
 	out = append(out, scenario(spec{Pre: "mid", Reloads: 2, UDP: true}))
 	out = append(out, scenario(spec{Pre: "thalf", Reloads: 1}))
 	out = append(out, scenario(spec{Pre: "idle", Reloads: 1, UDP: true, Legacy: true, Second: true}))
+	out = append(out, scenario(spec{Pre: "idle", Reloads: 2, DropUDP: true}))
+	out = append(out, scenario(spec{Pre: "mid", Reloads: 1, UDP: true, Failing: true}))
 	if tier == "thorough" {
 		out = append(out, scenario(spec{Pre: "idle", Reloads: 1, UDP: true, Legacy: true}))
 		out = append(out, scenario(spec{Pre: "idle", Reloads: 1, UDP: true, Second: true}))
@@ -333,7 +360,13 @@ func init() {
 		for _, sc := range scenarios(ctx.Tier) {
 			// the scenarios with two clients also under the second base policy (newest goroutine first:
 			// a freshly started generation gets to run before the reloading goroutine continues)
-			engine.ExploreS(ctx, sc, engine.SConfig{Bound: bound, BothPolicies: strings.Contains(sc.Name, "[two-clients]"), Shard: ctx.Shard, NShards: ctx.NShards, Deadline: ctx.Deadline})
+			b := bound
+			if strings.Contains(sc.Name, "[udp-dropped-then-back]") || strings.Contains(sc.Name, "[failing-reload]") {
+				// what these two are about does not depend on the interleaving: default schedule (and
+				// every data choice) in the quick tier, deviation bound 1 in the thorough one
+				b = bound - 1
+			}
+			engine.ExploreS(ctx, sc, engine.SConfig{Bound: b, BothPolicies: strings.Contains(sc.Name, "[two-clients]"), Shard: ctx.Shard, NShards: ctx.NShards, Deadline: ctx.Deadline})
 		}
 	})
 	hk.Replayers["C11"] = func(ctx *engine.Ctx, rp engine.Replay) []*engine.Finding {
